@@ -86,23 +86,7 @@ Proof.
   replace (m <=? 0) with false by (symmetry; apply Z.leb_gt; lia). lia.
 Qed.
 
-(* ---------- exact ceiling division and the ratio scaling ---------- *)
-
-Lemma cdiv_bounds a b : 0 < b -> a <= b * cdiv a b < a + b.
-Proof.
-  intro Hb. unfold cdiv.
-  pose proof (Z.div_mod (- a) b ltac:(lia)) as E.
-  pose proof (Z.mod_pos_bound (- a) b Hb) as M. lia.
-Qed.
-
-Lemma cdiv_mono a a' b : 0 < b -> a <= a' -> cdiv a b <= cdiv a' b.
-Proof.
-  intros Hb H. unfold cdiv.
-  assert ((- a') / b <= (- a) / b) by (apply Z.div_le_mono; lia). lia.
-Qed.
-
-Lemma cdiv_pos a b : 0 < b -> 0 < a -> 0 < cdiv a b.
-Proof. intros Hb Ha. pose proof (cdiv_bounds a b Hb). nia. Qed.
+(* ---------- the ratio scaling (float64 semantics: Lib.Float53) ---------- *)
 
 Lemma scale_id r q : r <= 100 -> scale_quota r q = q.
 Proof.
@@ -125,24 +109,25 @@ Qed.
 Lemma normalized_pos r q : 0 < q -> 0 < normalized r q.
 Proof.
   intro H. unfold normalized. destruct (100 <? r) eqn:E; [apply Z.ltb_lt in E|lia].
-  apply cdiv_pos; lia.
+  apply ratio_div_ceil_pos; lia.
 Qed.
 
 Lemma normalized_le r q : 0 < q -> normalized r q <= q.
 Proof.
   intro H. unfold normalized. destruct (100 <? r) eqn:E; [apply Z.ltb_lt in E|lia].
-  pose proof (cdiv_bounds (q * 100) r ltac:(lia)). nia.
+  apply ratio_div_ceil_le; lia.
 Qed.
 
-Lemma normalized_mono r q q' : q <= q' -> normalized r q <= normalized r q'.
+Lemma normalized_mono r q q' : 0 <= q -> q <= q' -> normalized r q <= normalized r q'.
 Proof.
-  intro H. unfold normalized. destruct (100 <? r) eqn:E; [apply Z.ltb_lt in E|lia].
-  apply cdiv_mono; lia.
+  intros H0 H. unfold normalized. destruct (100 <? r) eqn:E; [apply Z.ltb_lt in E|lia].
+  apply ratio_div_ceil_mono; lia.
 Qed.
 
-(* r * normalized r q is within [100 q, 100 q + r) when the ratio is active *)
-Lemma normalized_bounds r q : 100 < r -> q * 100 <= r * normalized r q < q * 100 + r.
+(* with M / T the double nearest to r/100: the result is the floor or the ceiling of q T / M *)
+Lemma normalized_near r q : 100 < r -> 0 < q ->
+  ratio_mant r * (normalized r q - 1) < q * ratio_den r < ratio_mant r * (normalized r q + 1).
 Proof.
-  intro H. unfold normalized. replace (100 <? r) with true by (symmetry; apply Z.ltb_lt; lia).
-  apply cdiv_bounds. lia.
+  intros H Hq. unfold normalized. replace (100 <? r) with true by (symmetry; apply Z.ltb_lt; lia).
+  apply ratio_div_ceil_near; lia.
 Qed.
